@@ -2,6 +2,7 @@ package main
 
 import (
 	"fmt"
+	"os"
 	"go/types"
 	"path/filepath"
 	"regexp"
@@ -61,37 +62,50 @@ func (P *Program) verifyFunc(key string, opts *VerifyOpts) (res *FuncResult) {
 	if spec == nil {
 		spec = &FuncSpec{Key: key, Pkg: fn.Pkg.Pkg.Name(), Loops: map[int]*LoopSpec{}}
 	}
-	var encs []*Enc
 	ncase := len(spec.Cases)
+	var cis []int
 	for ci := -1; ci < ncase; ci++ {
-		if ncase > 0 && ci == -1 {
-			// exhaustiveness obligation only
-		}
 		if ncase == 0 && ci >= 0 {
 			break
 		}
-		e := newEnc(P)
-		res.Enc = e
-		func() {
+		cis = append(cis, ci)
+	}
+	encsArr := make([]*Enc, len(cis))
+	errs := make([]error, len(cis))
+	var ewg sync.WaitGroup
+	esem := make(chan struct{}, 8)
+	for k, ci := range cis {
+		ewg.Add(1)
+		go func(k, ci int) {
+			defer ewg.Done()
+			esem <- struct{}{}
+			defer func() { <-esem }()
+			e := newEnc(P)
+			encsArr[k] = e
 			defer func() {
 				if r := recover(); r != nil {
 					switch x := r.(type) {
 					case Unsupported:
-						res.Err = fmt.Errorf("outside the verified Go subset: %s", x.Msg)
+						errs[k] = fmt.Errorf("outside the verified Go subset: %s", x.Msg)
 					case SpecError:
-						res.Err = fmt.Errorf("contract error in %s: %s", key, x.Msg)
+						errs[k] = fmt.Errorf("contract error in %s: %s", key, x.Msg)
 					default:
 						panic(r)
 					}
 				}
 			}()
 			e.encodeTop(fn, spec, ci)
-		}()
-		if res.Err != nil {
+		}(k, ci)
+	}
+	ewg.Wait()
+	for _, er := range errs {
+		if er != nil {
+			res.Err = er
 			return
 		}
-		encs = append(encs, e)
 	}
+	encs := encsArr
+	res.Enc = encs[len(encs)-1]
 	notes, used, inl := map[string]bool{}, map[string]bool{}, map[string]bool{}
 	for _, e := range encs {
 		for n := range e.notes {
@@ -151,12 +165,102 @@ func (P *Program) verifyFunc(key string, opts *VerifyOpts) (res *FuncResult) {
 	if res.Err != nil {
 		return
 	}
+	if os.Getenv("GOVC_DEBUG") != "" {
+		fmt.Fprintf(os.Stderr, "encoded %s in %d ms\n", key, time.Since(t0).Milliseconds())
+	}
 	// discharge
 	var wg sync.WaitGroup
+	totalObl := 0
 	for _, e := range encs {
-		base := len(res.Results)
-		res.Results = append(res.Results, make([]*OblResult, len(e.obls))...)
+		totalObl += len(e.obls)
+	}
+	res.Results = make([]*OblResult, totalObl)
+	base := 0
+	for _, e := range encs {
+		base0 := base
+		base += len(e.obls)
+		base := base0
+		// groups: try the conjunction of all parts of one clause first
+		groups := map[string][]int{}
+		var gorder []string
 		for i, o := range e.obls {
+			if o.Group == "" && (o.Kind == "frame" || strings.HasPrefix(o.Kind, "safe:")) {
+				o.Group = e.topKey() + "#" + strings.SplitN(o.Kind, ":", 2)[0]
+			}
+			if o.Group == "" || o.Finding != nil || o.Kind == "cover" {
+				continue
+			}
+			if opts.OnlyObl != nil && !opts.OnlyObl.MatchString(o.Name) {
+				continue
+			}
+			if opts.Prop != "" && len(o.Tags) > 0 && !containsStr(o.Tags, opts.Prop) {
+				continue
+			}
+			if _, ok := groups[o.Group]; !ok {
+				gorder = append(gorder, o.Group)
+			}
+			groups[o.Group] = append(groups[o.Group], i)
+		}
+		inGroup := map[int]bool{}
+		for _, gname := range gorder {
+			idxs := groups[gname]
+			hasFinding := false
+			for _, i := range idxs {
+				if e.obls[i].Finding != nil {
+					hasFinding = true
+				}
+			}
+			if len(idxs) < 2 || hasFinding {
+				continue
+			}
+			for _, i := range idxs {
+				inGroup[i] = true
+			}
+			wg.Add(1)
+			go func(e *Enc, gname string, idxs []int, base int) {
+				defer wg.Done()
+				var goals []string
+				first := e.obls[idxs[0]]
+				nl := 0
+				for _, i := range idxs {
+					goals = append(goals, implies(e.obls[i].Guard, e.obls[i].Goal))
+					if e.obls[i].NLines > nl {
+						nl = e.obls[i].NLines
+					}
+				}
+				gobl := &Obl{Name: gname + "/all", Kind: first.Kind, Goal: and(goals...), Guard: "true", NLines: nl}
+				file := filepath.Join(opts.WorkDir, safeName(gobl.Name)+".smt2")
+				var sr SolveResult
+				if gobl.Goal == "true" || gobl.Guard == "false" {
+					sr = SolveResult{Status: "unsat", Backend: "govc-trivial"}
+				} else {
+					writeFile(file, e.buildQuery(gobl, nil, false))
+					sr = runQuery(file, 4, opts.Agree, nil)
+				}
+				if os.Getenv("GOVC_DEBUG") != "" {
+					fmt.Fprintf(os.Stderr, "group %s n=%d -> %s %dms\n", gname, len(idxs), sr.Status, sr.Millis)
+				}
+				if sr.Status == "unsat" {
+					for _, i := range idxs {
+						res.Results[base+i] = &OblResult{Obl: e.obls[i], Status: "discharged", Solve: SolveResult{Status: "unsat", Backend: sr.Backend, Millis: sr.Millis / int64(len(idxs))}, File: file, Func: key}
+					}
+					return
+				}
+				var w2 sync.WaitGroup
+				for _, i := range idxs {
+					w2.Add(1)
+					go func(i int) {
+						defer w2.Done()
+						res.Results[base+i] = e.discharge(e.obls[i], key, opts)
+					}(i)
+				}
+				w2.Wait()
+			}(e, gname, idxs, base)
+		}
+		for i, o := range e.obls {
+			if inGroup[i] {
+				continue
+			}
 			if opts.OnlyObl != nil && !opts.OnlyObl.MatchString(o.Name) {
 				res.Results[base+i] = &OblResult{Obl: o, Status: "skipped", Func: key}
 				continue
@@ -302,13 +406,18 @@ func (e *Enc) encodeTop(fn *ssa.Function, spec *FuncSpec, caseIdx int) {
 	}
 	for i, c := range spec.Ensures {
 		ctx := &SpecCtx{e: e, names: rnames, heap: fs.heap, old: h0, pkg: spec.Pkg}
-		parts := ctx.evalSplit(c.Expr)
+		parts := ctx.evalSplitL(c.Expr)
 		for j, g := range parts {
 			name := fmt.Sprintf("%s#post:%d", strings.Replace(key, "#case", "@case", 1), i+1)
+			src := "ensures " + c.Src
 			if len(parts) > 1 {
 				name = fmt.Sprintf("%s/%d", name, j+1)
+				src = "ensures (part) " + g.Desc
 			}
-			e.oblige(name, "post", fs.reach, g, fmt.Sprintf("%s:%d", filepath.Base(spec.File), c.Line), "ensures "+c.Src, c.Tags)
+			o := e.oblige(name, "post", fs.reach, g.Term, fmt.Sprintf("%s:%d", filepath.Base(spec.File), c.Line), src, c.Tags)
+			if len(parts) > 1 {
+				o.Group = fmt.Sprintf("%s#post:%d", strings.Replace(key, "#case", "@case", 1), i+1)
+			}
 		}
 	}
 	if spec.HasMod {
@@ -369,9 +478,9 @@ func (e *Enc) buildQueryX(o *Obl, extra []string, wantModel bool, relaxed bool) 
 	}
 	// string literal facts
 	for i, s := range e.P.strSnapshot() {
-		fmt.Fprintf(&sb, "(assert (= (str.len %d) %d))\n", i, len(s))
+		fmt.Fprintf(&sb, "(assert (= (gstr.len %d) %d))\n", i, len(s))
 	}
-	sb.WriteString("(assert (forall ((s Int)) (! (and (>= (str.len s) 0) (=> (= (str.len s) 0) (= s 0))) :pattern ((str.len s)))))\n")
+	sb.WriteString("(assert (forall ((s Int)) (! (and (>= (gstr.len s) 0) (=> (= (gstr.len s) 0) (= s 0))) :pattern ((gstr.len s)))))\n")
 	for _, l := range e.lines[:o.NLines] {
 		if relaxed && strings.HasPrefix(l, "(assert") && (strings.Contains(l, "(forall ") || strings.Contains(l, "(exists ")) {
 			continue
@@ -405,7 +514,7 @@ func (e *Enc) discharge(o *Obl, fkey string, opts *VerifyOpts) *OblResult {
 	r.File = file
 	if o.Kind == "cover" {
 		writeFile(file, e.buildQuery(o, nil, false))
-		sr := runQuery(file, 3, 1, nil)
+		sr := runQuery(file, 2, 1, []string{"z3-4.8.12"})
 		r.Solve = sr
 		switch sr.Status {
 		case "sat":
